@@ -347,7 +347,7 @@ def applyOp (op : String) (a b : ER) : Option ER :=
 def lowest (x : ER) : Bool :=
   Nat.gcd (EDec.toNat x.num.d) (EDec.toNat x.den.d) == 1
 
-/-- erational has no known-defect input class left (D17 repaired in 535b52e): every spec failure is unclassified. -/
+/-- erational has no known-defect input class left (D17 repaired in 5d744db): every spec failure is unclassified. -/
 def stepClass (_op : String) (_a _b : ER) : String := ""
 
 def judge (x : Rat) (rhs : List String) : Bool × String :=
